@@ -113,6 +113,10 @@ def bounded(check, tier, seed):
               bound=f"pool {len(P)}", exhaustive=False)
     esc_runs = [FmtStr(Chunk("\x1b[1mx", {"fg": 31})), FmtStr(Chunk("a\x1b[", {"bold": True})), FmtStr(Chunk("p", {}), Chunk("\x1b[44mq", {"underline": True})),
                 FmtStr(Chunk("\x1b[1mx")), fmtstr("a", "red") + "\x1b[44mq"]      # (the last two: escape text in UNformatted runs)
+    # text that holds an ESC / 0x9b WITHOUT the 'ESC[' introducer (two-character escapes, a lone ESC, the 8-bit CSI), formatted and not:
+    # the helpers take such text verbatim, so these round-trip
+    for t in ("\x1bM", "key \x1bOP", "\x1b", "a\x1b", "\x1b7x", "\x9b", "\x9b1m", "\x1b\x1b", "\x1bc", "\x1b]0;t\x07"):
+        esc_runs += [FmtStr(Chunk(t, {"fg": 31})), FmtStr(Chunk(t)), FmtStr(Chunk("p", {"bold": True}), Chunk(t, {"bg": 44, "underline": True}))]
     for f in P[:n_repr] + esc_runs:
         if not f.chunks:
             continue
